@@ -82,8 +82,9 @@ func NewRTMetrics(settings ...RTOption) (*RTMetrics, error) {
 
 // Export Returns a new RTMetrics which is a copy of the current one.
 func (m *RTMetrics) Export() *RTMetrics {
-	m.statusCodesLock.RLock()
-	defer m.statusCodesLock.RUnlock()
+	// exclusive: Clone (like Count) first cleans up stale buckets of the counter, i.e. it writes
+	m.statusCodesLock.Lock()
+	defer m.statusCodesLock.Unlock()
 	m.histogramLock.RLock()
 	defer m.histogramLock.RUnlock()
 
@@ -114,6 +115,8 @@ func (m *RTMetrics) CounterWindowSize() time.Duration {
 // NetworkErrorRatio calculates the amont of network errors such as time outs and dropped connection
 // that occurred in the given time window compared to the total requests count.
 func (m *RTMetrics) NetworkErrorRatio() float64 {
+	m.statusCodesLock.Lock()
+	defer m.statusCodesLock.Unlock()
 	if m.total.Count() == 0 {
 		return 0
 	}
@@ -124,8 +127,8 @@ func (m *RTMetrics) NetworkErrorRatio() float64 {
 func (m *RTMetrics) ResponseCodeRatio(startA, endA, startB, endB int) float64 {
 	a := int64(0)
 	b := int64(0)
-	m.statusCodesLock.RLock()
-	defer m.statusCodesLock.RUnlock()
+	m.statusCodesLock.Lock()
+	defer m.statusCodesLock.Unlock()
 	for code, v := range m.statusCodes {
 		if code < endA && code >= startA {
 			a += v.Count()
@@ -146,20 +149,20 @@ func (m *RTMetrics) Append(other *RTMetrics) error {
 		return errors.New("RTMetrics cannot append to self")
 	}
 
-	if err := m.total.Append(other.total); err != nil {
-		return err
-	}
-
-	if err := m.netErrors.Append(other.netErrors); err != nil {
-		return err
-	}
-
 	copied := other.Export()
 
 	m.statusCodesLock.Lock()
 	defer m.statusCodesLock.Unlock()
 	m.histogramLock.Lock()
 	defer m.histogramLock.Unlock()
+
+	if err := m.total.Append(copied.total); err != nil {
+		return err
+	}
+
+	if err := m.netErrors.Append(copied.netErrors); err != nil {
+		return err
+	}
 	for code, c := range copied.statusCodes {
 		o, ok := m.statusCodes[code]
 		if ok {
@@ -176,29 +179,36 @@ func (m *RTMetrics) Append(other *RTMetrics) error {
 
 // Record records a metric.
 func (m *RTMetrics) Record(code int, duration time.Duration) {
+	// the rolling counters are not safe for concurrent use: statusCodesLock guards total and netErrors as well
+	m.statusCodesLock.Lock()
 	m.total.Inc(1)
 	if code == http.StatusGatewayTimeout || code == http.StatusBadGateway {
 		m.netErrors.Inc(1)
 	}
+	m.statusCodesLock.Unlock()
 	_ = m.recordStatusCode(code)
 	_ = m.recordLatency(duration)
 }
 
 // TotalCount returns total count of processed requests collected.
 func (m *RTMetrics) TotalCount() int64 {
+	m.statusCodesLock.Lock()
+	defer m.statusCodesLock.Unlock()
 	return m.total.Count()
 }
 
 // NetworkErrorCount returns total count of processed requests observed.
 func (m *RTMetrics) NetworkErrorCount() int64 {
+	m.statusCodesLock.Lock()
+	defer m.statusCodesLock.Unlock()
 	return m.netErrors.Count()
 }
 
 // StatusCodesCounts returns map with counts of the response codes.
 func (m *RTMetrics) StatusCodesCounts() map[int]int64 {
 	sc := make(map[int]int64)
-	m.statusCodesLock.RLock()
-	defer m.statusCodesLock.RUnlock()
+	m.statusCodesLock.Lock()
+	defer m.statusCodesLock.Unlock()
 	for k, v := range m.statusCodes {
 		if v.Count() != 0 {
 			sc[k] = v.Count()
